@@ -17,9 +17,9 @@ type evalInfo struct {
 	pkg     *packages.Package
 	eval    *ssa.Function
 	yield   *ssa.Function
-	funcs   []*ssa.Function            // all functions of pkg/evaluator
-	reach   map[*ssa.Function]bool     // may reach eval (static calls + invokes resolved in package)
-	must    map[*ssa.Function]bool     // every entry→return path calls eval (or a must function)
+	funcs   []*ssa.Function        // all functions of pkg/evaluator
+	reach   map[*ssa.Function]bool // may reach eval (static calls + invokes resolved in package)
+	must    map[*ssa.Function]bool // every entry→return path calls eval (or a must function)
 	callees map[*ssa.Function][]calleeEdge
 }
 
